@@ -62,11 +62,7 @@ static const char* const kNames[H_COUNT] = { "none", "alloc", "free", "realloc",
 static const char* kindName(int k) { return k >= 0 && k < H_COUNT ? kNames[k] : "none"; }
 static int kindFromName(const char* s) { for (int i = 0; i < H_COUNT; i++) if (!strcmp(s, kNames[i])) return i; return H_NONE; }
 
-#ifdef CPPUTEST_DISABLE_MEM_CORRUPTION_CHECK
-enum { GUARD = 0 };
-#else
-enum { GUARD = 3 };
-#endif
+enum { GUARD = MemoryLeakDetector::memory_corruption_buffer_size };      // the library's own number of guard bytes (0 in the no-guard build)
 enum { N_SLOTS = 256, N_SITES = 4 };
 
 // ------------------------------------------------------------------------------------------------ simulated platform heap
@@ -249,7 +245,7 @@ static const char* siteFile(int s) { static const char* const f[N_SITES] = { "si
 static size_t siteLine(int s) { static const size_t l[N_SITES] = { 10, 20, 11, 10 }; return l[s % N_SITES]; }
 
 // ------------------------------------------------------------------------------------------------ model
-struct MBlock { bool live, tracked; char* p; size_t size; int family; int route; unsigned number; Str file; size_t line; int period; unsigned char stage; Str allocName, typeName; uint64_t pat; bool guardDirty; TestMemoryAllocator* allocator; unsigned char guard0[8]; /* the guard bytes as the detector wrote them, whatever its pattern is */ };
+struct MBlock { bool live, tracked; char* p; size_t size; int family; int route; unsigned number; Str file; size_t line; int period; unsigned char stage; Str allocName, typeName; uint64_t pat; bool guardDirty; TestMemoryAllocator* allocator; unsigned char guard0[64]; /* the guard bytes as the detector wrote them, whatever its pattern is */ };
 static const uint64_t PCT_SEED = 0x25252525ULL;      // blocks whose content is full of printf metacharacters (a dump must never use content as a format)
 static unsigned char patByte(uint64_t seed, size_t i) { if (seed == PCT_SEED) return (unsigned char)"%s%n%d%%%s%x%n"[i % 14]; return (unsigned char)(0x30 + ((seed * 7 + i * 13) % 64)); }
 static void fillPat(MBlock& b) { size_t n = b.size > 4096 ? 4096 : b.size; for (size_t i = 0; i < n; i++) b.p[i] = (char)patByte(b.pat, i); if (b.size > 4096) for (size_t i = b.size - 64; i < b.size; i++) b.p[i] = (char)patByte(b.pat, i); }
@@ -625,7 +621,7 @@ struct Engine : public vf::Engine {
                 checkNewBlock(W, oi, on, p, size);
                 if (o.kind == H_CALLOC) { for (size_t k = 0; k < size; k++) if (p[k]) { fail(W, "C05", "calloc_zero", sfmt("op %zu: byte %zu of a calloc'ed block of %zu is 0x%02x", oi, k, size, (unsigned char)p[k])); break; } }
                 if (o.kind == H_STRDUP) { if (memcmp(p, src.data(), size - 1) != 0 || p[size - 1] != 0) fail(W, "C05", "strdup_copy", sfmt("op %zu: copy differs or is unterminated (length %zu)", oi, size - 1)); }
-                if (HEAP.find(p) && p + size <= HEAP.find(p)->base + HEAP.find(p)->size) { fillPat(S); if (p + size + GUARD <= HEAP.find(p)->base + HEAP.find(p)->size) for (size_t k = 0; k < (size_t)GUARD && k < 8; k++) S.guard0[k] = (unsigned char)p[size + k]; } else S.p = 0;
+                if (HEAP.find(p) && p + size <= HEAP.find(p)->base + HEAP.find(p)->size) { fillPat(S); if (p + size + GUARD <= HEAP.find(p)->base + HEAP.find(p)->size) for (size_t k = 0; k < (size_t)GUARD && k < 64; k++) S.guard0[k] = (unsigned char)p[size + k]; } else S.p = 0;
                 r.nontrivial = true;
                 break;
             }
@@ -707,7 +703,7 @@ struct Engine : public vf::Engine {
                     size_t bad = 0; MBlock probeB = S; probeB.size = keep + 1;      // (+1: only the patterned prefix is compared, not a tail that was never filled)
                     if (!checkPat(probeB, keep, &bad)) fail(W, "C05", "realloc_preserves", sfmt("op %zu: byte %zu of the first %zu bytes changed across realloc %zu -> %zu", oi, bad, keep, old.size, size));
                     fillPat(S);
-                    if (np + size + GUARD <= HEAP.find(np)->base + HEAP.find(np)->size) for (size_t k = 0; k < (size_t)GUARD && k < 8; k++) S.guard0[k] = (unsigned char)np[size + k];
+                    if (np + size + GUARD <= HEAP.find(np)->base + HEAP.find(np)->size) for (size_t k = 0; k < (size_t)GUARD && k < 64; k++) S.guard0[k] = (unsigned char)np[size + k];
                 } else S.p = 0;
                 r.nontrivial = true;
                 break;
